@@ -320,7 +320,9 @@ func (p *idp) token(w http.ResponseWriter, r *http.Request, idpID string) {
 	ev["mode"] = mode
 	ev["status"] = status
 	ev["issued"] = issued
-	d.rec.emit(ev)
+	if g.check == nil || !g.check.quiet {
+		d.rec.emit(ev)
+	}
 
 	if mode == "drop" || mode == "drop-after" {
 		// transport-level failure: the connection is closed without an answer
